@@ -1,7 +1,7 @@
 #!/bin/sh
 # Runs quick checks against a behaviour-preserving patch inside the seed sandbox (/tmp/sv): every check must exit 0.
 #   lib/benignrun.sh <k> <check ids...>
-SV=/tmp/sv
+SV=${SV:-/tmp/sv}
 k=$1; shift
 cd $SV/repo && git checkout -q -- . && git apply /verif/seeded/benign/$k/patch.diff || { echo "benign/$k: patch does not apply"; exit 2; }
 cd $SV/verif
